@@ -25,7 +25,7 @@
       arena) is the `Arena` engine (C01–C05); here an arena is the list of tags of its blocks plus
       counters of the single-arena operations applied to it.
 -/
-import BumpProof.Lemmas.PoolInv
+import BumpProof.Lemmas.PoolHist
 
 namespace C19
 open Pool
@@ -55,7 +55,6 @@ theorem exclusive {h : List Step} {s : State} (hr : run init h = .ok s) :
 /-- No two live guards ever refer to the same arena. -/
 theorem no_shared_arena {h : List Step} {s : State} (hr : run init h = .ok s)
     {g₁ g₂ : GuardId} {a : ArenaId} (h₁ : (g₁, a) ∈ s.owned) (h₂ : (g₂, a) ∈ s.owned) : g₁ = g₂ := by
-  have hi := inv_run inv_init hr
   have hown := (exclusive hr).1
   -- two entries with the same arena are the same entry
   have key : ∀ (l : List (GuardId × ArenaId)), (l.map (·.2)).Nodup → (g₁, a) ∈ l → (g₂, a) ∈ l → g₁ = g₂ := by
@@ -78,5 +77,178 @@ theorem no_shared_arena {h : List Step} {s : State} (hr : run init h = .ok s)
 /-- non-vacuity: three guards on two threads' worth of interleaving; the history is accepted -/
 example : (run init [.get 0 true, .get 1 true, .alloc 0 7, .put 0, .get 2 true, .alloc 2 8, .put 1, .put 2]).isOk = true := by
   decide
+
+/-! ## (2) Reuse before create; no arena is lost -/
+
+/-- (From any state.) A `get*` constructs a new arena only if the idle stack is empty at that moment; every other step, and
+    every `get*` that finds an idle arena, leaves the number of arenas unchanged. -/
+theorem creates_only_when_idle_empty {s s' : State} {st : Step} {o : Out} (e : step s st = .ok (s', o)) :
+    (s'.created = s.created ∧ ∀ a, o ≠ .got a true) ∨
+    (s.idle = [] ∧ s'.created = s.created + 1 ∧ o = .got s.created true) := by
+  rcases created_step e with h | ⟨g, _, ho, hidle, hc⟩
+  · exact Or.inl h
+  · exact Or.inr ⟨hidle, hc, ho⟩
+
+/-- The arena most recently returned by a dropped guard is what the next `get*` hands out (no arena is
+    constructed while a returned one waits). -/
+theorem returned_arena_is_reused_first {s s₁ s₂ : State} {g g' : GuardId} {ok : Bool} {a : ArenaId} {o₁ o₂ : Out}
+    (ha : arenaOf g s.owned = some a) (e₁ : step s (.put g) = .ok (s₁, o₁))
+    (e₂ : step s₁ (.get g' ok) = .ok (s₂, o₂)) : o₂ = .got a false := by
+  simp only [step] at e₁ e₂
+  unfold put at e₁
+  split at e₁; · cases e₁
+  split at e₁; · cases e₁
+  rename_i b owned' ht
+  cases e₁
+  have hb := (takeOut_some ht).2.2.2
+  rw [ha] at hb; cases hb
+  unfold Pool.get at e₂
+  split at e₂; · cases e₂
+  split at e₂; · cases e₂
+  simp only at e₂
+  cases e₂; rfl
+
+/-- The number of arenas ever created never exceeds the peak number of simultaneously live guards of the
+    history (`peakLive` is a function of the observable history only: which calls returned a guard, which
+    guards were dropped). -/
+theorem created_le_peak {h : List Step} {s : State} {log : List (Step × Out)}
+    (hr : runLog init h = .ok (s, log)) : s.created ≤ peakLive log := by
+  have := created_le_peakFrom (p := 0) inv_init hr (Nat.le_refl _)
+  simpa [peakLive, State.live, init] using this
+
+/-- Every arena that was ever created is in exactly one place: idle in the pool, inside a live guard, or
+    inside a forgotten guard (and nothing else is in those places). -/
+theorem none_lost {h : List Step} {s : State} (hr : run init h = .ok s) (a : ArenaId) :
+    a < s.created ↔ (a ∈ s.idle ∨ (∃ g, (g, a) ∈ s.owned) ∨ a ∈ s.leaked) := by
+  have hi := inv_run inv_init hr
+  rw [← hi.mem_iff a]
+  simp only [State.all, List.mem_append, List.mem_map]
+  constructor
+  · rintro (h | ⟨p, hp, rfl⟩ | h)
+    · exact Or.inl h
+    · exact Or.inr (Or.inl ⟨p.1, hp⟩)
+    · exact Or.inr (Or.inr h)
+  · rintro (h | ⟨g, hg⟩ | h)
+    · exact Or.inl h
+    · exact Or.inr (Or.inl ⟨(g, a), hg, rfl⟩)
+    · exact Or.inr (Or.inr h)
+
+/-- accounting: idle arenas + guards handed out and not dropped = arenas created -/
+theorem idle_plus_live {h : List Step} {s : State} (hr : run init h = .ok s) :
+    s.idle.length + (s.owned.length + s.leaked.length) = s.created :=
+  (inv_run inv_init hr).length
+
+/-- non-vacuity + tightness: two guards live at once, then five more gets one at a time: two arenas, peak 2 -/
+example : (runLog init [.get 0 true, .get 1 true, .put 0, .put 1, .get 2 true, .put 2, .get 3 false, .put 3]).toOption.map
+    (fun r => (r.1.created, peakLive r.2)) = some (2, 2) := by decide
+
+/-! ## (3) Stability of what was allocated through a guard -/
+
+/-- One step changes the contents of an arena only if it is an allocation through the guard that
+    currently owns that arena (and then appends exactly the new block), or a reset/rewind/drop of the pool. -/
+theorem contents_change_only_by_owner {s s' : State} {st : Step} {o : Out}
+    (e : step s st = .ok (s', o)) (a : ArenaId)
+    (hne : (s'.arenas a).tags ≠ (s.arenas a).tags) :
+    st.isClear = true ∨
+    ∃ g t, st = .alloc g t ∧ (g, a) ∈ s.owned ∧ (s'.arenas a).tags = (s.arenas a).tags ++ [t] := by
+  cases hc : st.isClear with
+  | true => exact Or.inl rfl
+  | false =>
+    right
+    rcases arena_step e hc a with h | ⟨g, t, hst, hg, h⟩
+    · exact absurd (by rw [h]) hne
+    · exact ⟨g, t, hst, arenaOf_mem hg, by rw [h]; rfl⟩
+
+/-- (From any state `m`, in particular any reachable one.) Between resets the contents of every arena only grow: whatever happens in between — guard drops,
+    hand-over to other guards and threads, other allocations — what was there is still there, in place. -/
+theorem contents_only_grow {h₂ : List Step} {m s : State} (e : run m h₂ = .ok s) (hc : ∀ st ∈ h₂, st.isClear = false) (a : ArenaId) :
+    (m.arenas a).tags <+: (s.arenas a).tags :=
+  tags_prefix_run e hc a
+
+/-- A block allocated through guard `g` is still in its arena after any continuation without a reset, in
+    particular after `g` was dropped and the arena was handed to other guards. -/
+theorem survives_handover {h₂ : List Step} {m s : State} {g : GuardId} {t : Tag} {a : ArenaId}
+    (hg : arenaOf g m.owned = some a)
+    (e : run m (.alloc g t :: h₂) = .ok s) (hc : ∀ st ∈ h₂, st.isClear = false) :
+    (m.arenas a).tags ++ [t] <+: (s.arenas a).tags := by
+  unfold run at e
+  split at e
+  · rename_i m₁ o₁ h1
+    have := tags_prefix_run e hc a
+    simp only [step] at h1; unfold alloc at h1
+    split at h1; · cases h1
+    rw [hg] at h1
+    simp only at h1
+    cases h1
+    simpa [update, Arena.alloc] using this
+  · cases e
+
+/-- non-vacuity: guard 0 writes 7, is dropped, guard 1 (another thread) gets the same arena and writes 8 -/
+example : (run init [.get 0 true, .alloc 0 7, .put 0, .get 1 true, .alloc 1 8, .put 1]).toOption.map
+    (fun s => ((s.arenas 0).tags, s.created)) = some ([7, 8], 1) := by decide
+
+/-! ## (4) `reset`, `reset_to_start`, drop of the pool reach every arena, each exactly once -/
+
+/-- `BumpPool::reset` is `Bump::reset` applied exactly once to every arena ever created (except those
+    inside forgotten guards, which the pool no longer has), and nothing else changes. -/
+theorem reset_every_arena {h : List Step} {s s' : State} {o : Out} (hr : run init h = .ok s)
+    (e : step s .reset = .ok (s', o)) :
+    (∀ a, a < s.created → a ∉ s.leaked → s'.arenas a = (s.arenas a).reset) ∧
+    (∀ a, (s.created ≤ a ∨ a ∈ s.leaked) → s'.arenas a = s.arenas a) ∧
+    s'.idle = s.idle ∧ s'.created = s.created := by
+  have c := forAll_covers (inv_run inv_init hr) (by simpa [step] using e)
+  exact ⟨c.1, c.2.1, c.2.2.1, c.2.2.2.2.2.1⟩
+
+/-- `BumpPool::reset_to_start` is `Bump::reset_to_start` applied exactly once to every arena. -/
+theorem reset_to_start_every_arena {h : List Step} {s s' : State} {o : Out} (hr : run init h = .ok s)
+    (e : step s .resetToStart = .ok (s', o)) :
+    (∀ a, a < s.created → a ∉ s.leaked → s'.arenas a = (s.arenas a).resetToStart) ∧
+    (∀ a, (s.created ≤ a ∨ a ∈ s.leaked) → s'.arenas a = s.arenas a) ∧
+    s'.idle = s.idle ∧ s'.created = s.created := by
+  have c := forAll_covers (inv_run inv_init hr) (by simpa [step] using e)
+  exact ⟨c.1, c.2.1, c.2.2.1, c.2.2.2.2.2.1⟩
+
+/-- Dropping the pool drops every arena ever created (except those inside forgotten guards) exactly once. -/
+theorem drop_every_arena {h : List Step} {s s' : State} {o : Out} (hr : run init h = .ok s)
+    (e : step s .drop = .ok (s', o)) :
+    (∀ a, a < s.created → a ∉ s.leaked → (s'.arenas a).drops = 1) ∧
+    (∀ a, (s.created ≤ a ∨ a ∈ s.leaked) → (s'.arenas a).drops = 0) := by
+  have hi := inv_run inv_init hr
+  have hd := dropInv_run inv_init dropInv_init hr
+  have h0 := hd.none_before (step_not_dropped e)
+  simp only [step] at e; unfold dropPool at e
+  split at e
+  · rename_i s1 o1 h1
+    cases e
+    have c := forAll_covers hi h1
+    constructor
+    · intro a ha hl
+      show (s1.arenas a).drops = 1
+      rw [c.1 a ha hl]; simp only [Arena.drop]; rw [h0 a]
+    · intro a ha
+      show (s1.arenas a).drops = 0
+      rw [c.2.1 a ha]; exact h0 a
+  · cases e
+
+/-- In no history is an arena dropped twice, and none is dropped before the pool is. -/
+theorem no_double_drop {h : List Step} {s : State} (hr : run init h = .ok s) (a : ArenaId) :
+    (s.arenas a).drops ≤ 1 ∧ (s.dropped = false → (s.arenas a).drops = 0) := by
+  have hd := dropInv_run inv_init dropInv_init hr
+  exact ⟨hd.at_most_once a, fun h => hd.none_before h a⟩
+
+/-- With no guard live and none forgotten, the idle vector the loop runs over holds ALL arenas. -/
+theorem idle_is_everything {h : List Step} {s : State} (hr : run init h = .ok s)
+    (hown : s.owned = []) (hleak : s.leaked = []) : s.idle.Perm (List.range s.created) := by
+  have := (inv_run inv_init hr).perm
+  simpa [State.all, hown, hleak] using this
+
+/-- non-vacuity: two arenas with contents, all guards dropped, then reset, a rewind and drop -/
+example : (run init [.get 0 true, .get 1 true, .alloc 0 1, .alloc 1 2, .put 1, .put 0, .reset, .get 2 true, .alloc 2 3, .put 2,
+    .resetToStart, .drop]).toOption.map
+    (fun s => ((s.arenas 0).resets, (s.arenas 1).resets, (s.arenas 0).rewinds, (s.arenas 1).drops, (s.arenas 0).tags.length, (s.arenas 2).drops)) =
+    some (1, 1, 1, 1, 0, 0) := by decide
+
+/-- the `&mut self` gate: a pool with a live guard cannot be reset (the model rejects the history) -/
+example : (run init [.get 0 true, .reset]).toOption.isNone = true := by decide
 
 end C19
